@@ -6,7 +6,7 @@ from .. import lbgen, lbshadow
 from . import c02
 
 ID = "C04"
-MODULES = ["Helios.Props.C04", "Helios.Props.C04M", "Helios.Props.CodeLB"]
+MODULES = ["Helios.Props.C04", "Helios.Props.C04M", "Helios.Props.CodeLB", "Helios.Props.CodeWire"]
 THEOREMS = ["Helios.LB.passive_below_threshold", "Helios.LB.passive_at_threshold", "Helios.LB.finish_no_eject",
             "Helios.LB.probe_fail_ejects", "Helios.LB.probe_ok_never_ejects", "Helios.LB.no_traffic_in_window",
             "Helios.LB.recovers_after_window", "Helios.LB.lazy_expiry", "Helios.LB.eject_mirror",
@@ -16,7 +16,9 @@ THEOREMS = ["Helios.LB.passive_below_threshold", "Helios.LB.passive_at_threshold
             "Helios.CodeTie.markUnhealthy_refines", "Helios.CodeTie.isBackendHealthy_refines",
             "Helios.CodeTie.processResponse_refines", "Helios.CodeTie.handleFailure_is_eject",
             "Helios.CodeTie.isHealthyAt_checkObj", "Helios.CodeTie.probeEnd_probeEndObj",
-            "Helios.CodeTie.passive_refines", "Helios.CodeTie.passiveFail_passiveObj", "Helios.CodeTie.translation_clean_lb"]
+            "Helios.CodeTie.passive_refines", "Helios.CodeTie.passiveFail_passiveObj", "Helios.CodeTie.translation_clean_lb",
+            # the thresholds, windows and intervals the state machine runs with are the configured ones (seconds as ns)
+            "Helios.CodeTie.createHealthChecker_refines", "Helios.CodeTie.translation_clean_wire"]
 SEC = lbgen.SEC
 
 
